@@ -622,7 +622,11 @@ def canon_minmax(name, xs):
         if c is not None: return c.im == 0 and c.re > 0
         try: return _pos_x(x)
         except Exception: return False
-    kind = "pos" if ((name == "max" and any(pos(x) for x in xs)) or (name == "min" and all(pos(x) for x in xs))) else None
+    def nonneg_const(x):
+        c = x.constval()
+        return c is not None and c.im == 0 and c.re >= 0
+    # (max(x, 0) is only non-negative; it is given the root-friendly kind as well: 0**q is defined for q > 0)
+    kind = "pos" if ((name == "max" and any(pos(x) or nonneg_const(x) for x in xs)) or (name == "min" and all(pos(x) for x in xs))) else None
     return mk_fn(name, xs, kind)
 
 
